@@ -123,20 +123,11 @@ func VerifyDataDirChecksums(dataDir string) (*DataDirChecksumResult, error) {
 		return nil, fmt.Errorf("cannot read base directory: %w", err)
 	}
 	
-	for _, entry := range entries {
-		if !entry.IsDir() {
-			continue
-		}
-		
-		// Check if it's a numeric OID directory
-		if _, err := strconv.ParseUint(entry.Name(), 10, 32); err != nil {
-			continue
-		}
-		
-		dbPath := filepath.Join(baseDir, entry.Name())
+	// scanDir verifies every relation segment file of one directory
+	scanDir := func(dbPath string) {
 		files, err := os.ReadDir(dbPath)
 		if err != nil {
-			continue
+			return
 		}
 		
 		for _, f := range files {
@@ -144,8 +135,9 @@ func VerifyDataDirChecksums(dataDir string) (*DataDirChecksumResult, error) {
 				continue
 			}
 			
-			// Check if it's a numeric filenode, optionally followed by a
-			// numeric segment suffix (e.g., "12345", "12345.1", "12345.10")
+			// A relation segment file is "<filenode>[_fsm|_vm|_init][.<segment>]"
+			// (e.g., "12345", "12345.1", "12345.10", "12345_fsm", "12345_vm.1"):
+			// every fork is made of checksummed pages, numbered from 0 in each fork
 			name := f.Name()
 			base, segNum := name, uint32(0)
 			if dot := strings.LastIndexByte(name, '.'); dot >= 0 {
@@ -154,6 +146,12 @@ func VerifyDataDirChecksums(dataDir string) (*DataDirChecksumResult, error) {
 					continue
 				}
 				base, segNum = name[:dot], uint32(seg)
+			}
+			for _, fork := range []string{"_fsm", "_vm", "_init"} {
+				if strings.HasSuffix(base, fork) {
+					base = strings.TrimSuffix(base, fork)
+					break
+				}
 			}
 			if _, err := strconv.ParseUint(base, 10, 32); err != nil {
 				continue
@@ -177,6 +175,22 @@ func VerifyDataDirChecksums(dataDir string) (*DataDirChecksumResult, error) {
 				result.Files = append(result.Files, *fileResult)
 			}
 		}
+	}
+	
+	// Shared catalogs (pg_authid, pg_database, ...) live in global/
+	scanDir(filepath.Join(dataDir, "global"))
+	
+	for _, entry := range entries {
+		if !entry.IsDir() {
+			continue
+		}
+		
+		// Check if it's a numeric OID directory
+		if _, err := strconv.ParseUint(entry.Name(), 10, 32); err != nil {
+			continue
+		}
+		
+		scanDir(filepath.Join(baseDir, entry.Name()))
 	}
 	
 	return result, nil
